@@ -4,7 +4,7 @@ untouched) and records which obligations catch it in seeded/RESULTS.json. Usage:
 import json, os, re, subprocess, sys
 V = os.path.dirname(os.path.dirname(os.path.abspath(__file__)))
 ids = sys.argv[1:] or sorted(d for d in os.listdir(os.path.join(V, "seeded")) if re.match(r"C\d\d-\d+$", d))
-resf = os.path.join(V, "seeded", "RESULTS.json")
+resf = os.environ.get("SEED_RESULTS") or os.path.join(V, "seeded", "RESULTS.json")
 res = json.load(open(resf)) if os.path.exists(resf) else {}
 for d in ids:
     out = subprocess.run([os.path.join(V, "tools", "seedoverlay.sh"), d], capture_output=True, text=True).stdout
